@@ -144,9 +144,9 @@ class StateMachine(metaclass=StateMachineMetaclass):
 
         self._listeners: Dict[Any, Any] = {}
 
-        self._register_callbacks([])
-        self.add_listener(*listeners.keys())
-        self._callbacks.async_or_sync()
+        # listeners take part in the resolution as in the constructor: a callback name may be
+        # provided by a listener only
+        self._register_callbacks(list(listeners.keys()))
         self._engine = self._get_engine(rtc)
         self._engine.start()
 
